@@ -1,229 +1,148 @@
 """spyne/protocol/xml.py  ->  Gen/XsiGuard.v   (C04)
 
 The xsi:type block of ``XmlDocument.from_element`` decides which class an
-element is deserialised as.  This translator checks, statement by statement,
-that the block still is the one the hand-written model ``C04/XmlModel.v:resolve``
-transcribes (split at the first ':', element.nsmap.get(prefix), the
-"{%s}%s" class key, interface.classes.get, ValidationError when either lookup
-fails) and turns the *decision* -- what replaces ``cls`` -- into a Gallina table
+element is deserialised as.  This translator
 
-    xsi_target : same -> arr -> subof -> samename -> cplx -> XReject | XDeclared | XNew
+  * checks that everything from ``if self.parse_xsi_type:`` to the end of
+    ``from_element`` still BEHAVES like the code the hand-written model
+    ``C04/XmlModel.v:resolve`` transcribes (split at the first ':',
+    element.nsmap.get(prefix), the "{%s}%s" class key, interface.classes.get,
+    ValidationError when either lookup fails, the handler dispatch on the
+    resulting class): both are run by the symbolic executor of ``symexec.py``
+    and must have the same decision table, so renamed locals, guard clauses,
+    extracted private helpers of the class (inlined), comments and log / error
+    messages do not matter;
+  * turns the *decision* -- what replaces ``cls`` -- into a Gallina table
 
-over the five tests the code makes (see C04/Guard.v).  Two shapes are accepted:
+        xsi_target : same -> arr -> subof -> samename -> cplx -> XReject | XDeclared | XNew
 
-  * ``cls = newclass``                                   (no guard: always XNew)
-  * ``cls = self._get_xsi_target(cls, newclass, xsi_type)`` with the body of
-    ``_get_xsi_target`` made of ``if``/``raise ValidationError``/``return cls``/
-    ``return newclass`` over exactly those five tests.
+    over the five tests the code makes (see C04/Guard.v), by evaluating
+    ``_get_xsi_target`` on all 32 valuations of those tests.  Without the guard
+    (``cls = newclass``) the table is constantly XNew.
 
-Anything else raises TranslateError (fail closed).
+A test that is none of the five, an outcome that is none of raise
+ValidationError / return cls / return newclass, or a block that behaves like
+neither reference raises TranslateError (fail closed).
 """
-import ast, os
-from .pyexpr import BoolTranslator, TranslateError, find_function
+import ast, os, itertools, warnings
+from .pyexpr import TranslateError, find_function
+from . import symexec as SX
 
 SRC = 'spyne/protocol/xml.py'
 
+_REF = '''
+if self.parse_xsi_type:
+    xsi_type = element.get(XSI_TYPE, None)
+    if xsi_type is not None:
+        if ":" in xsi_type:
+            prefix, objtype = xsi_type.split(':', 1)
+        else:
+            prefix, objtype = None, xsi_type
+        ns = element.nsmap.get(prefix)
+        if ns is not None:
+            classkey = "{%%s}%%s" %% (ns, objtype)
+        else:
+            raise ValidationError(xsi_type)
+        newclass = ctx.app.interface.classes.get(classkey, None)
+        if newclass is None:
+            raise ValidationError(xsi_type)
+        cls = %s
+handler = self.deserialization_handlers[cls]
+return handler(ctx, cls, element)
+'''
+REFS = {'true': ast.parse(_REF % 'self._get_xsi_target(cls, newclass, xsi_type)').body,
+        'false': ast.parse(_REF % 'newclass').body}
 
-def _dump(n):
-    return ast.dump(n, annotate_fields=False)
-
-
-def _expr(s):
-    return _dump(ast.parse(s, mode='eval').body)
-
-
-def _stmt(s):
-    return _dump(ast.parse(s).body[0])
-
-
-EXPECT_IN_BLOCK = [
-    # (what, expected statement) -- each must occur exactly once in the xsi:type block
-    ('split', "prefix, objtype = xsi_type.split(':', 1)"),
-    ('nosplit', "prefix, objtype = None, xsi_type"),
-    ('nsmap', "ns = element.nsmap.get(prefix)"),
-    ('classkey', 'classkey = "{%s}%s" % (ns, objtype)'),
-    ('lookup', "newclass = ctx.app.interface.classes.get(classkey, None)"),
-]
-
-
-def _strip_doc(body):
-    return [s for s in body if not (isinstance(s, ast.Expr) and isinstance(s.value, ast.Constant)
-                                    and isinstance(s.value.value, str))]
-
-
-def _is_logger_call(s):
-    return (isinstance(s, ast.Expr) and isinstance(s.value, ast.Call)
-            and isinstance(s.value.func, ast.Attribute) and isinstance(s.value.func.value, ast.Name)
-            and s.value.func.value.id in ('logger', 'logger_invalid'))
-
-
-def _raises_validation_error(s):
-    return (isinstance(s, ast.Raise) and isinstance(s.exc, ast.Call) and isinstance(s.exc.func, ast.Name)
-            and s.exc.func.id == 'ValidationError')
-
-
-def _block_of(fn):
-    """the body of ``if xsi_type is not None:`` inside ``if self.parse_xsi_type:``"""
-    outer = [s for s in fn.body if isinstance(s, ast.If) and _dump(s.test) == _expr('self.parse_xsi_type')]
-    if len(outer) != 1 or outer[0].orelse:
-        raise TranslateError('from_element: expected exactly one "if self.parse_xsi_type:" without else')
-    body = outer[0].body
-    if len(body) != 2 or _dump(body[0]) != _stmt('xsi_type = element.get(XSI_TYPE, None)'):
-        raise TranslateError('from_element: the xsi:type block does not start with element.get(XSI_TYPE, None)')
-    inner = body[1]
-    if not isinstance(inner, ast.If) or _dump(inner.test) != _expr('xsi_type is not None') or inner.orelse:
-        raise TranslateError('from_element: expected "if xsi_type is not None:" without else')
-    return outer[0], inner.body
-
-
-def _check_block(block):
-    """the statements the model transcribes are all there, in the expected control structure"""
-    flat = []
-
-    def walk(stmts):
-        for s in stmts:
-            flat.append(s)
-            if isinstance(s, ast.If):
-                walk(s.body)
-                walk(s.orelse)
-            elif isinstance(s, (ast.For, ast.While, ast.Try, ast.With, ast.FunctionDef)):
-                raise TranslateError('from_element: unexpected compound statement in the xsi:type block')
-    walk(block)
-    dumps = [_dump(s) for s in flat]
-    for what, text in EXPECT_IN_BLOCK:
-        if dumps.count(_stmt(text)) != 1:
-            raise TranslateError('from_element: expected exactly one %r (%s)' % (text, what))
-    # if ":" in xsi_type: split else: nosplit
-    s0 = block[0]
-    if not (isinstance(s0, ast.If) and _dump(s0.test) == _expr('":" in xsi_type')
-            and [_dump(x) for x in s0.body] == [_stmt(EXPECT_IN_BLOCK[0][1])]
-            and [_dump(x) for x in s0.orelse] == [_stmt(EXPECT_IN_BLOCK[1][1])]):
-        raise TranslateError('from_element: the prefix split is not the expected if/else')
-    # ns lookup; if ns is not None: classkey else: (logging) raise ValidationError
-    if _dump(block[1]) != _stmt(EXPECT_IN_BLOCK[2][1]):
-        raise TranslateError('from_element: expected the nsmap lookup after the split')
-    s2 = block[2]
-    if not (isinstance(s2, ast.If) and _dump(s2.test) == _expr('ns is not None')
-            and [_dump(x) for x in s2.body] == [_stmt(EXPECT_IN_BLOCK[3][1])]):
-        raise TranslateError('from_element: expected "if ns is not None: classkey = ..."')
-    els = [s for s in s2.orelse if not _is_logger_call(s)]
-    if len(els) != 1 or not _raises_validation_error(els[0]):
-        raise TranslateError('from_element: an unknown prefix must raise ValidationError')
-    if _dump(block[3]) != _stmt(EXPECT_IN_BLOCK[4][1]):
-        raise TranslateError('from_element: expected the interface.classes lookup')
-    s4 = block[4]
-    if not (isinstance(s4, ast.If) and _dump(s4.test) == _expr('newclass is None') and not s4.orelse):
-        raise TranslateError('from_element: expected "if newclass is None:"')
-    b4 = [s for s in s4.body if not _is_logger_call(s)]
-    if len(b4) != 1 or not _raises_validation_error(b4[0]):
-        raise TranslateError('from_element: an unregistered class key must raise ValidationError')
-    rest = [s for s in block[5:] if not _is_logger_call(s)]
-    if len(rest) != 1 or not (isinstance(rest[0], ast.Assign) and len(rest[0].targets) == 1
-                              and isinstance(rest[0].targets[0], ast.Name) and rest[0].targets[0].id == 'cls'):
-        raise TranslateError('from_element: expected exactly one assignment to cls after the lookups')
-    # nothing else in the block may assign cls
-    n_cls = 0
-    for s in flat:
-        if isinstance(s, (ast.Assign, ast.AugAssign, ast.AnnAssign)):
-            tg = s.targets if isinstance(s, ast.Assign) else [s.target]
-            for t in tg:
-                for nm in ast.walk(t):
-                    if isinstance(nm, ast.Name) and nm.id == 'cls':
-                        n_cls += 1
-    if n_cls != 1:
-        raise TranslateError('from_element: cls is assigned %d times in the xsi:type block' % n_cls)
-    return rest[0].value
-
-
-def _after_block(fn, outer):
-    """what follows the block must dispatch on cls"""
-    i = fn.body.index(outer)
-    tail = [_dump(s) for s in fn.body[i + 1:]]
-    want = [_stmt('handler = self.deserialization_handlers[cls]'), _stmt('return handler(ctx, cls, element)')]
-    if tail != want:
-        raise TranslateError('from_element: the statements after the xsi:type block are not the handler dispatch')
-
-
-LEAVES = {
-    _expr('sub is sup'): 'same',
-    _expr('issubclass(sup, Array)'): 'arr',
-    _expr('issubclass(sub, sup)'): 'subof',
-    _expr('issubclass(sup, ComplexModelBase)'): 'cplx',
-    _expr('(newclass.get_namespace(), newclass.get_type_name()) == (cls.get_namespace(), cls.get_type_name())'): 'samename',
-    _expr('(newclass.get_namespace(), newclass.get_type_name()) != (cls.get_namespace(), cls.get_type_name())'): '(negb samename)',
-    _expr('(cls.get_namespace(), cls.get_type_name()) == (newclass.get_namespace(), newclass.get_type_name())'): 'samename',
-    _expr('(cls.get_namespace(), cls.get_type_name()) != (newclass.get_namespace(), newclass.get_type_name())'): '(negb samename)',
+_ORIG = ("    sup = getattr(cls, '__orig__', None) or cls\n"
+         "    sub = getattr(newclass, '__orig__', None) or newclass\n")
+TESTS = {
+    'same': ['sub is sup', 'sup is sub'],
+    'arr': ['issubclass(sup, Array)'],
+    'subof': ['issubclass(sub, sup)'],
+    'cplx': ['issubclass(sup, ComplexModelBase)'],
+    'samename': ['(newclass.get_namespace(), newclass.get_type_name()) == (cls.get_namespace(), cls.get_type_name())',
+                 '(cls.get_namespace(), cls.get_type_name()) == (newclass.get_namespace(), newclass.get_type_name())'],
 }
+ORDER = ['same', 'arr', 'subof', 'samename', 'cplx']
 
 
-def _leaf(n):
-    return LEAVES.get(_dump(n))
+def known_atoms():
+    out = {}
+    m = SX.Machine()
+    for name, tests in TESTS.items():
+        for t in tests:
+            fn = ast.parse("def f(cls, newclass, xsi_type):\n" + _ORIG + "    if %s:\n        return 1\n    return 0\n" % t).body[0]
+            body, env = SX.fn_program(fn, skip_self=False)
+            tab = m.table(body, env)
+            atoms = set(a for c, _ in tab for a in c)
+            if len(atoms) != 1:
+                raise TranslateError('internal: reference test %r is not one atom' % t)
+            out[atoms.pop()] = name
+    return out
 
 
-def _no_cmp(op, l, r):
-    raise TranslateError('unsupported comparison in _get_xsi_target: %s' % ast.dump(l)[:120])
-
-
-def _tr_target(fn):
-    a = fn.args
-    names = [x.arg for x in a.args]
+def tr_target(fn):
+    names = [a.arg for a in fn.args.args]
     if names and names[0] == 'self':
         names = names[1:]
-    if names != ['cls', 'newclass', 'xsi_type'] or a.vararg or a.kwarg or a.kwonlyargs or a.defaults:
+    if len(names) != 3:
         raise TranslateError('_get_xsi_target: unexpected signature %r' % (names,))
-    body = _strip_doc(fn.body)
-    want = [_stmt("sup = getattr(cls, '__orig__', None) or cls"),
-            _stmt("sub = getattr(newclass, '__orig__', None) or newclass")]
-    if [_dump(s) for s in body[:2]] != want:
-        raise TranslateError('_get_xsi_target: expected the two __orig__ lookups first')
-    bt = BoolTranslator(_leaf, _no_cmp)
-
-    def block(stmts, k):
-        stmts = [s for s in _strip_doc(stmts) if not isinstance(s, ast.Pass) and not _is_logger_call(s)]
-        if not stmts:
-            if k is None:
-                raise TranslateError('_get_xsi_target: a path ends without return or raise')
-            return k
-        s, rest = stmts[0], stmts[1:]
-        if isinstance(s, ast.Return):
-            if isinstance(s.value, ast.Name) and s.value.id == 'cls':
-                return 'XDeclared'
-            if isinstance(s.value, ast.Name) and s.value.id == 'newclass':
-                return 'XNew'
-            raise TranslateError('_get_xsi_target: unexpected return value')
-        if _raises_validation_error(s):
-            return 'XReject'
-        if isinstance(s, ast.If):
-            kk = block(rest, k) if rest else k
-            t = bt.tr(s.test)
-            return '(if %s then %s else %s)' % (t, block(s.body, kk), block(s.orelse, kk) if s.orelse else _need(kk))
-        raise TranslateError('_get_xsi_target: unsupported statement %s' % type(s).__name__)
-
-    def _need(k):
-        if k is None:
-            raise TranslateError('_get_xsi_target: a path ends without return or raise')
-        return k
-
-    return block(body[2:], None)
+    m = SX.Machine()
+    body, env = SX.fn_program(fn)
+    tab = m.table(body, env)
+    known = known_atoms()
+    for cond, _ in tab:
+        for a in cond:
+            if a not in known:
+                raise TranslateError('_get_xsi_target makes a test that is none of the five known ones: %s' % a[:160])
+    byname = dict((v, [k for k in known if known[k] == v]) for v in ORDER)
+    a0 = SX.canon(ast.Name(id='a0', ctx=ast.Load()))
+    a1 = SX.canon(ast.Name(id='a1', ctx=ast.Load()))
+    rows = []
+    for bits in itertools.product((True, False), repeat=5):
+        val = {}
+        for n, b in zip(ORDER, bits):
+            for k in byname[n]:
+                val[k] = b
+        r = SX.lookup(tab, val)
+        if r == ('raise', 'ValidationError'):
+            d = 'XReject'
+        elif r == ('return', a0):
+            d = 'XDeclared'
+        elif r == ('return', a1):
+            d = 'XNew'
+        else:
+            raise TranslateError('_get_xsi_target: outcome %r is none of raise ValidationError / return cls / return newclass' % (r,))
+        rows.append('  | %s => %s' % (', '.join('true' if b else 'false' for b in bits), d))
+    return 'match same, arr, subof, samename, cplx with\n%s\n  end' % '\n'.join(rows)
 
 
 def generate(repo):
     path = os.path.join(repo, SRC)
-    tree = ast.parse(open(path).read())
+    with warnings.catch_warnings():
+        warnings.simplefilter('ignore')
+        tree = ast.parse(open(path).read())
     fe = find_function(tree, ['XmlDocument', 'from_element'])
     names = [x.arg for x in fe.args.args]
     if names != ['self', 'ctx', 'cls', 'element']:
         raise TranslateError('from_element: unexpected signature %r' % (names,))
-    outer, block = _block_of(fe)
-    value = _check_block(block)
-    _after_block(fe, outer)
-    if _dump(value) == _expr('newclass'):
-        guarded, table = 'false', 'XNew'
-    elif _dump(value) in (_expr('self._get_xsi_target(cls, newclass, xsi_type)'),):
-        guarded = 'true'
-        table = _tr_target(find_function(tree, ['XmlDocument', '_get_xsi_target']))
+    idx = [i for i, s in enumerate(fe.body) if isinstance(s, ast.If)
+           and SX.canon(s.test) == SX.canon(ast.parse('self.parse_xsi_type', mode='eval').body)]
+    if len(idx) != 1:
+        raise TranslateError('from_element: expected exactly one "if self.parse_xsi_type:"')
+    helpers = SX.class_helpers(tree, 'XmlDocument')
+    m = SX.Machine(helpers=helpers, opaque=('_get_xsi_target',), consts={})
+    tab = m.table(fe.body[idx[0]:], {})
+    hits = [k for k, ref in REFS.items() if SX.equivalent(tab, SX.Machine(opaque=('_get_xsi_target',)).table(ref, {}))]
+    if len(hits) != 1:
+        raise TranslateError('from_element: from "if self.parse_xsi_type:" on, the code behaves like neither recognised variant')
+    guarded = hits[0]
+    if guarded == 'true':
+        if '_get_xsi_target' not in helpers:
+            raise TranslateError('XmlDocument._get_xsi_target not found')
+        table = tr_target(helpers['_get_xsi_target'])
     else:
-        raise TranslateError('from_element: cls is replaced by an unrecognised expression: %s' % ast.dump(value)[:160])
+        table = 'XNew'
     text = ('(* generated by harness/translate/xsitype.py from %s -- do not edit *)\n'
             'From SpyneV Require Import C04.Guard.\n\n'
             '(** does from_element pass the registered class through _get_xsi_target? *)\n'
